@@ -26,6 +26,16 @@ CHECKS = {
         "Simulated reads only; mode 4 judged only with pseudogene + deletion allele + estimated structure; mode 5 only on routes using a neutral region.",
         "DESIGN.md 5/C19",
     ),
+    "C06": (
+        "differential testing of Sample's evidence table against an independent CIGAR interpreter and htslib's pileup on Hypothesis-generated read sets, plus metamorphic relations",
+        "Random read sets (CIGAR grammar over M,=,X,I,D,S,H incl. leading/adjacent indels, all flag kinds, mapq/base-quality bin edges, shared "
+        "fragment names, reads outside/straddling the locus) plus low-depth simulator reads carrying catalogue SNP/MNP/indels are written as BAM "
+        "and as permuted SAM; per position of every gene/pseudogene region the depth, reference/substitution/MNP counts and the (mapq, binned "
+        "quality) multisets must equal the independent interpreter's (depth also htslib's), ineligible reads must contribute nothing, read "
+        "order and CIGAR re-encoding (split M runs, =/X spelling) must not matter, and phase records must name an allele a read of the fragment shows.",
+        "pysam/htslib trusted as second opinion; long-read path and CRAM not generated; deleted-base qualities not judged.",
+        "DESIGN.md 5/C06",
+    ),
     "C07": (
         "metamorphic relations over Hypothesis-generated simulated samples (k-fold duplication, gene-only scaling, self-profile, profile route)",
         "Per generated database and planted sample: Sample() is built for S, k.S (every read k times), gene-only scaled S, for S with its own "
@@ -33,6 +43,15 @@ CHECKS = {
         "must give the same structures and scores for S and k.S, and a sample without neutral-region reads must be rejected.",
         "Simulated error-free reads; tolerance 1e-9 relative; the shipped NA10860 ratio check is not in the quick tier.",
         "DESIGN.md 5/C07",
+    ),
+    "C16": (
+        "Hypothesis-generated VCF files planting catalogued alleles as standard left-anchored records; expected-evidence oracle + end-to-end call",
+        "One or two catalogued alleles of a generated database are written as VCF records (SNP, deletion, insertion, MNP as one record or as "
+        "adjacent records; phased/unphased; REF-mismatch spelling; multi-sample files, sample index 0-3) plus foreign-shaped records and "
+        "non-diploid/missing genotypes; the evidence table of Sample() must show c x u support per variant and (2-c) x u reference support "
+        "(u measured on an anchor het SNP), nothing else, no exception; genotype() on the file must report the planted major pair.",
+        "bgzip/tabix through pysam; insertion reference support may stay at two copies or be reduced (both accepted).",
+        "DESIGN.md 5/C16",
     ),
     "C17": (
         "round trip over Hypothesis-generated simulated samples: `aldy genotype --debug` through main(), then the archive genotyped again",
